@@ -16,7 +16,9 @@ import (
 	"encoding/hex"
 	"errors"
 	"fmt"
+	"io"
 	"os"
+	"path/filepath"
 	"sort"
 	"strings"
 	"sync"
@@ -1517,7 +1519,7 @@ func (r *verifC15Run) start(t *testing.T, store string) {
 		}
 		idb = db
 	default:
-		db := sqldb.NewTestSqliteDB(t).BaseDB
+		db := verifC15Sqlite(t)
 		executor := sqldb.NewTransactionExecutor(
 			db, func(tx *sql.Tx) invpkg.SQLInvoiceQueries {
 				return db.WithTx(tx)
@@ -1540,6 +1542,65 @@ func (r *verifC15Run) start(t *testing.T, store string) {
 	if err := r.reg.Start(); err != nil {
 		t.Fatalf("registry start: %v", err)
 	}
+}
+
+// verifC15Sqlite returns a fresh SQLite invoice database. The schema is
+// produced once per process by lnd's real migrations (exactly what
+// sqldb.NewTestSqliteDB does, ~100-250 ms); every case then starts from a file
+// copy of that empty, fully migrated database (~3 ms).
+var verifC15Tpl struct {
+	once sync.Once
+	path string
+	err  error
+}
+
+func verifC15Sqlite(t *testing.T) *sqldb.BaseDB {
+	verifC15Tpl.once.Do(func() {
+		dir, err := os.MkdirTemp("", "verifc15tpl")
+		if err != nil {
+			verifC15Tpl.err = err
+			return
+		}
+		p := filepath.Join(dir, "tpl.db")
+		s, err := sqldb.NewSqliteStore(&sqldb.SqliteConfig{}, p)
+		if err != nil {
+			verifC15Tpl.err = err
+			return
+		}
+		err = s.ApplyAllMigrations(context.Background(), sqldb.GetMigrations())
+		if err != nil {
+			verifC15Tpl.err = err
+			return
+		}
+		if err := s.DB.Close(); err != nil {
+			verifC15Tpl.err = err
+			return
+		}
+		verifC15Tpl.path = p
+	})
+	if verifC15Tpl.err != nil {
+		t.Fatalf("sqlite template: %v", verifC15Tpl.err)
+	}
+	p := filepath.Join(t.TempDir(), "c.db")
+	in, err := os.Open(verifC15Tpl.path)
+	if err != nil {
+		t.Fatalf("sqlite template open: %v", err)
+	}
+	out, err := os.Create(p)
+	if err != nil {
+		t.Fatalf("sqlite copy: %v", err)
+	}
+	if _, err := io.Copy(out, in); err != nil {
+		t.Fatalf("sqlite copy: %v", err)
+	}
+	in.Close()
+	out.Close()
+	s, err := sqldb.NewSqliteStore(&sqldb.SqliteConfig{SkipMigrations: true}, p)
+	if err != nil {
+		t.Fatalf("sqlite open: %v", err)
+	}
+	t.Cleanup(func() { _ = s.DB.Close() })
+	return s.BaseDB
 }
 
 func verifC15NewRun(t *testing.T, vc *verifCtx, in *verifC15Case, store string, conc bool) *verifC15Run {
